@@ -63,6 +63,10 @@ def clamp(n, lo, hi):
 def shape_ok(s):
     if len(s.w) != ROWS:
         return False
+    for i in range(ROWS):
+        for j in range(i + 1, ROWS):
+            if s.w[i] is s.w[j]:
+                return False          # two rows are one list object: a later write would change both
     for row in s.w:
         if len(row) != COLS:
             return False
@@ -346,6 +350,18 @@ def W4_accessors(op, a, b, c, d, cr, cc, rs, re, sr, sc):
     if not same(s, g) or (s.cur_r, s.cur_c, s.scroll_row_start, s.scroll_row_end) != (cr, cc, rs, re):
         return 0
     return 2 + op
+
+
+def dry_runs():
+    st = dict(cr=2, cc=3, rs=1, re=3, sr=1, sc=1)
+    for op in range(12):
+        yield 'W1_writes', dict(op=op, a=2, b=9, c=-1, d=2, **st)
+    for op in range(13):
+        yield 'W2_cursor', dict(op=op, a=2, b=1, **st)
+    for op in range(7):
+        yield 'W3_scroll', dict(op=op, a=0, b=9, **dict(st, cr=3))
+    for op in range(6):
+        yield 'W4_accessors', dict(op=op, a=2, b=9, c=-1, d=2, **st)
 
 
 MANIFEST_ENTRY = {
